@@ -90,9 +90,13 @@ def polyline_cases(draw, degenerate=False):
     q = draw(st.lists(st.integers(-12, 12).map(lambda v: F(v, 2)), min_size=dim, max_size=dim))
     scale = draw(st.sampled_from([F(1), F(1), F(1), F(10 ** 5), F(1, 10 ** 4), F(1000)]))
     U = [u * scale for u in U]
-    return {"U": U, "P": P, "qkind": qkind, "q": q, "t0": draw(st.integers(1, 31)), "pscale": scale,
+    # size of the geometry (powers of two keep the data exact); small geometry is not combined with short intervals
+    g = draw(st.sampled_from([F(1), F(1), F(1), F(1, 64), F(128)])) if scale >= 1 else F(1)
+    P = [[x * g for x in pt] for pt in P]
+    q = [x * g for x in q]
+    return {"U": U, "P": P, "qkind": qkind, "q": q, "t0": draw(st.integers(1, 31)), "pscale": scale, "gscale": g,
             "eps": draw(st.sampled_from([F(1, 2048), F(1, 4096), F(1, 1024), F(3, 8192)])),
-            "off": draw(st.sampled_from([F(0), F(0), F(1, 4096), F(-1, 2048)])),
+            "off": draw(st.sampled_from([F(0), F(0), F(1, 4096), F(-1, 2048)])) * g,
             "vi": draw(st.integers(0, n - 1)), "num": draw(st.sampled_from(["float", "npfloat"]))}
 
 
@@ -176,7 +180,7 @@ def check_polyline(case, out):
     degenerate = any(A == B for _, _, A, B in segs)
     jump = any(oracle.mult(ref.U, z) == 2 for z in oracle.breaks(ref.U)[1:-1])
     out.cls("q=" + qkind, f"dim={dim}", "segments>=3" if len(segs) >= 3 else "segments<3",
-            "param-scale=" + str(case.get("pscale", 1)),
+            "param-scale=" + str(case.get("pscale", 1)), "geometry-scale=" + str(case.get("gscale", 1)),
             "degenerate-segment" if degenerate else "regular", "jump" if jump else "continuous")
     out.nontrivial = len(segs) >= 3
     klass = "polyline" + (";degenerate-segment" if degenerate else "") + (";jump" if jump else "")
